@@ -295,75 +295,82 @@ Section Hier.
     | Cls _ | Gen _ _ => Some None
     end.
 
-  Fixpoint subck (n : nat) (t1 t2 : ty) {struct n} : option bool :=
+  (* one unfolding of subclasscheck, recursive calls through [rec] *)
+  Definition subck_body (rec : ty -> ty -> option bool) (t1 t2 : ty) : option bool :=
+    if ty_eqb t1 t2 then Some true else
+    match supck rec t2 t1 with
+    | None => None
+    | Some (Some r) => Some r
+    | Some None =>
+        (* t1.__is_subtype__(t2) is NotImplemented for every type of the modelled closure *)
+        let o1' := match t1 with Gen o _ => Cls o | _ => t1 end in
+        match t2 with
+        | Cls d => issub_cls o1' d
+        | Gen o2 a2 =>
+            match issub_cls o1' o2 with
+            | None => None
+            | Some false => Some false
+            | Some true =>
+                let a1 := match t1 with Gen _ a => a | _ => [] end in
+                if Nat.eqb (length a1) (length a2) then oforall2 rec a1 a2 else Some false
+            end
+        | _ => None
+        end
+    end.
+
+  Fixpoint subck (n : nat) : ty -> ty -> option bool :=
     match n with
-    | O => None
-    | S n =>
-        if ty_eqb t1 t2 then Some true else
-        match supck (subck n) t2 t1 with
+    | O => fun _ _ => None
+    | S n => subck_body (subck n)
+    end.
+
+  (* one unfolding of typeorder *)
+  Definition tord_body (rec : ty -> ty -> option order) (srec : ty -> ty -> option bool)
+             (t1 t2 : ty) : option order :=
+    if ty_eqb t1 t2 then Some SAME else
+    match hook_order rec srec t1 t2 with
+    | None => None
+    | Some (Some r) => Some r
+    | Some None =>
+        match hook_order rec srec t2 t1 with
         | None => None
-        | Some (Some r) => Some r
+        | Some (Some r) => Some (opposite r)
         | Some None =>
-            (* t1.__is_subtype__(t2) is NotImplemented for every type of the modelled closure *)
-            let o1' := match t1 with Gen o _ => Cls o | _ => t1 end in
-            match t2 with
-            | Cls d => issub_cls o1' d
-            | Gen o2 a2 =>
-                match issub_cls o1' o2 with
+            match t1, t2 with
+            | Gen o1 a1, Gen o2 a2 =>
+                match rec (Cls o1) (Cls o2) with
                 | None => None
-                | Some false => Some false
-                | Some true =>
-                    let a1 := match t1 with Gen _ a => a | _ => [] end in
-                    if Nat.eqb (length a1) (length a2) then oforall2 (subck n) a1 a2 else Some false
+                | Some SAME =>
+                    match a1, a2 with
+                    | _ :: _, [] => Some LESS
+                    | [], _ :: _ => Some MORE
+                    | _, _ =>
+                        if Nat.eqb (length a1) (length a2)
+                        then omap merge (omapM2 rec a1 a2)
+                        else Some NONE
+                    end
+                | Some r => Some r
                 end
-            | _ => None
+            | Gen o1 _, _ =>
+                match rec (Cls o1) t2 with
+                | Some SAME => Some LESS
+                | r => r
+                end
+            | _, Gen _ _ => omap opposite (rec t2 t1)
+            | _, _ =>
+                match issub srec t1 t2, issub srec t2 t1 with
+                | Some sx, Some sy =>
+                    Some (if sx && sy then SAME else if sx then LESS else if sy then MORE else NONE)
+                | _, _ => None
+                end
             end
         end
     end.
 
-  Fixpoint tord (n : nat) (t1 t2 : ty) {struct n} : option order :=
+  Fixpoint tord (n : nat) : ty -> ty -> option order :=
     match n with
-    | O => None
-    | S n =>
-        if ty_eqb t1 t2 then Some SAME else
-        match hook_order (tord n) (subck n) t1 t2 with
-        | None => None
-        | Some (Some r) => Some r
-        | Some None =>
-            match hook_order (tord n) (subck n) t2 t1 with
-            | None => None
-            | Some (Some r) => Some (opposite r)
-            | Some None =>
-                match t1, t2 with
-                | Gen o1 a1, Gen o2 a2 =>
-                    match tord n (Cls o1) (Cls o2) with
-                    | None => None
-                    | Some SAME =>
-                        match a1, a2 with
-                        | _ :: _, [] => Some LESS
-                        | [], _ :: _ => Some MORE
-                        | _, _ =>
-                            if Nat.eqb (length a1) (length a2)
-                            then omap merge (omapM2 (tord n) a1 a2)
-                            else Some NONE
-                        end
-                    | Some r => Some r
-                    end
-                | Gen o1 _, _ =>
-                    match tord n (Cls o1) t2 with
-                    | Some SAME => Some LESS
-                    | r => r
-                    end
-                | _, Gen _ _ => omap opposite (tord n t2 t1)
-                | _, _ =>
-                    match issub (subck n) t1 t2, issub (subck n) t2 t1 with
-                    | Some sx, Some sy =>
-                        Some (if sx && sy then SAME else if sx then LESS else if sy then MORE else NONE)
-                    | _, _ => None
-                    end
-                end
-            end
-        end
+    | O => fun _ _ => None
+    | S n => tord_body (tord n) (subck n)
     end.
 
   (* fuel that always suffices (Proofs/TyTotal.v) *)
